@@ -262,3 +262,11 @@ impl<F: Float> Default for FFT<F> {
         Self::new()
     }
 }
+
+#[cfg(feature = "verif")]
+impl<F: Float> FFT<F> {
+    /// Read-only view of the twiddle table and the bit-reversal table (verification harness only).
+    pub fn verif_tables(&self) -> (&[Complex<F>], &[usize]) {
+        (&self.w, &self.reversed)
+    }
+}
